@@ -245,18 +245,20 @@ class Edits:
         self.ed = [x for x in self.ed if not (s <= x[0] and x[1] <= e)]
         self.sealed.append((s, e))
         self._n += 1
-        self.ed.append((s, e, self._n, text, origin))
+        self.ed.append((s, e, (0, 0, self._n), text, origin))
 
-    def replace(self, s, e, text, origin, prio=0):
+    def replace(self, s, e, text, origin, prio=0, wraps=None):
         assert self.s <= s <= e <= self.e, (self.s, s, e, self.e)
         if any(a <= s and e <= b and (s, e) != (a, b) for a, b in self.sealed) or any((a, b) == (s, e) and s < e for a, b in self.sealed):
             return
         self._n += 1
-        self.ed.append((s, e, self._n + prio * 1000000, text, origin))
+        # order among insertions at the same offset: statement-level anchors (prio < 0) first; then the opening text of wrappers,
+        # the one around the LARGER expression first (`wraps` = end offset of the wrapped expression); then everything else in order
+        self.ed.append((s, e, (prio, -(wraps or 0), self._n), text, origin))
 
-    def insert(self, at, text, origin, prio=0):
+    def insert(self, at, text, origin, prio=0, wraps=None):
         """prio < 0: before other insertions at the same offset (statement-level anchors go before expression rewrites)"""
-        self.replace(at, at, text, origin, prio)
+        self.replace(at, at, text, origin, prio, wraps)
 
     def delete(self, s, e, origin="drop"):
         self.replace(s, e, "", origin)
@@ -711,6 +713,10 @@ class Gen:
                 k = int(sel.get("arg", 0))
                 if k < len(args):
                     hits.append(args[k])
+            if "tail" in sel and n is body:
+                last = [c for c in body["c"] if c["r"] == "stmt"]
+                if last and last[-1]["k"] == "StmtExpr" and not last[-1]["a"].get("semi"):
+                    hits.append(kid(last[-1], "expr") if kid(last[-1], "expr") is not None else last[-1]["c"][0])
             if "assign" in sel and n["k"] == "Assign" and norm(src.text(kid(n, "left"))) == norm(sel["assign"]):
                 hits.append(kid(n, "right"))
             if "let" in sel and n["k"] == "Local" and kid(n, "pat")["a"].get("ident") == sel["let"] and kid(n, "init") is not None:
@@ -742,7 +748,7 @@ class Gen:
                     self.emit("        " + c.text + ",\n", ("clause", c.id))
         self.emit("{\n    " + (it.get("preproof") or "") + "\n    let __r = ", ("glue",))
         ed = Edits(src, e["s"], e["e"])
-        pseudo = {"name": it["name"], "loops": {}, "opts": [], "closurefns": {}, "letty": {}, "callmap": it.get("callmap", []), "arounds": [], "ats": [],
+        pseudo = {"name": it["name"], "loops": {}, "opts": [f"{k}={it['sel'][k]}" for k in ("try", "slicefull") if it["sel"].get(k)], "closurefns": {}, "letty": {}, "callmap": it.get("callmap", []), "arounds": [], "ats": [],
                   "external": True, "genfns": {}, "binops": [], "strvars": it.get("strvars", [])}
         self.rewrite_body(pseudo, src, fn, e, ed)
         for a, b in it.get("substs", []):
@@ -1025,7 +1031,8 @@ class Gen:
                 rg = kid(ix, "index")
                 if rg["k"] == "Range" and kid(rg, "start") is None and kid(rg, "end") is None:
                     X = kid(ix, "base")
-                    ed.replace(n["s"], X["s"], ([o[10:] for o in it["opts"] if o.startswith("slicefull=")] or ["__slice_full"])[0] + "(", ("rule", "R46"))
+                    hname = ([o[10:] for o in it["opts"] if o.startswith("slicefull=")] or ["__slice_full"])[0]
+                    ed.replace(n["s"], X["s"], (hname[:-1] + "(&") if hname.endswith("&") else (hname + "("), ("rule", "R46"), wraps=n["e"])
                     ed.replace(X["e"], n["e"], ")", ("rule", "R46"))
                     self.fired("R46")
         # R43: @letinit — initialiser replaced by a trusted helper expression
@@ -1267,7 +1274,7 @@ class Gen:
                     E = kid(n, "expr")
                     if E["k"] == "MethodCall" and E["a"]["method"] in ("ok_or_else", "with_context", "context", "map_err"):
                         continue
-                    ed.insert(n["s"], "(match ", ("rule", "R31"))
+                    ed.insert(n["s"], "(match ", ("rule", "R31"), wraps=n["e"])
                     ed.replace(E["e"], n["e"], " { Some(__v) => __v, None => return None })", ("rule", "R31"))
                     self.fired("R31")
 
@@ -1277,7 +1284,7 @@ class Gen:
                     E = kid(n, "expr")
                     if E["k"] == "MethodCall" and E["a"]["method"] in ("ok_or_else", "with_context", "context", "map_err"):
                         continue
-                    ed.insert(n["s"], "(match ", ("rule", "R31"))
+                    ed.insert(n["s"], "(match ", ("rule", "R31"), wraps=n["e"])
                     ed.replace(E["e"], n["e"], " { Ok(__v) => __v, Err(__e) => return Err(__e) })", ("rule", "R31"))
                     self.fired("R31")
 
@@ -1823,7 +1830,7 @@ class Gen:
                     if any(a0 <= n["s"] and n["e"] <= b0 for a0, b0 in dead):
                         hit += 1  # consumed by another rule that re-applies the call map itself
                         continue
-                    ed.insert(n["s"], (func[:-1] + "(&") if func.endswith("&") else (func + "("), ("rule", "R11"))
+                    ed.insert(n["s"], (func[:-1] + "(&") if func.endswith("&") else (func + "("), ("rule", "R11"), wraps=n["e"])
                     if nargs == 0:
                         ed.replace(rc["e"], n["e"], ")", ("rule", "R11"))
                     else:
